@@ -49,6 +49,18 @@ CHECKS = {
    technique="bounded-exhaustive API differential (replace_dictionary vs reference score deltas) + exhaustive hostile-word sweep through the real manipulate_model binary",
    text="API: sub-sampled C01 models x every replacement dictionary of <=2 words x all texts: the mirror-decoded model must differ only in the dictionary and every boundary score must move by exactly ref(new) - ref(old); WordWeightRecord::new is probed with every weight count 0..7 on six single- and multi-byte words. CLI: the real manipulate_model is run on every word up to 2/3 characters over {a , \" space LF CR hiragana #} with extreme weights (16- and 32-bit limits) and hostile comments, each alone and all together: --dump-dict, --replace-dict with the untouched dump, byte comparison of the zstd-decoded models, and a dump edited to a wrong weight count must be rejected with no output model.",
    note="Trusted: csv and zstd crates, the mirror. Process spawns use files under /verif/target/scratch."),
+ "C09": dict(level="exploration", section="3/C09",
+   technique="configuration-grid sweep with real training; learner's own recorded quantised coefficients re-applied by an independent feature extractor",
+   text="For every (char window, char n, type window, type n) in {1,2,3}^4 / {0..4}^4 (differing windows and n > window included), three dictionaries x length buckets {1,2,4}, solvers {1,5} / all eight, and 4 / 12 tiny corpora (tokenized, partially annotated, mixed), the real trainer runs with real liblinear; then every boundary of every text of 2-4 characters over {a,b,hiragana,digit} is scored by Predictor::new(trained) and compared with recorded quantised bias + sum over the documented features of the recorded quantised weight (verif-hooks trace of the same run). The weight-vector layout clause (each n-gram vector covers exactly its own window) is checked on the mirror-decoded model.",
+   note="The oracle uses the coefficients of the same run, so liblinear numerics, rand() and hash-map order cannot cause an alarm. Configurations on which training errors or panics are skipped here (C11). Trusted: ref_features in train.rs, the trace hook (records values the trainer computed, changes nothing)."),
+ "C10": dict(level="exploration", section="3/C10",
+   technique="bounded-exhaustive enumeration of (configuration, labelled sentence) vs. an independent feature extractor on the decoded example store",
+   text="Every (char window, char n, type window, type n) in {0..3}^4 / {0..4}^4 x 7 dictionary/bucket variants x every sentence up to 3/4 characters over {a,b,hiragana,digit} x every {N,W,U} label vector, added alone and (sub-sampled) in pairs: the examples decoded from the trainer (verif-hooks accessor) must equal, as a multiset, exactly one example per annotated boundary, labelled by its annotation, with exactly the documented n-gram and dictionary features (counts included); unknown boundaries contribute nothing.",
+   note="Trusted: ref_features in train.rs (n-grams of length 1..N fully inside the window with their relative positions; one left/inside/right feature by bucket per dictionary-word occurrence touching the boundary) and the read-only accessor hook."),
+ "C11": dict(level="exploration", section="3/C11",
+   technique="configuration x corpus sweep with real training; usability obligations checked on every returned model",
+   text="Window and n-gram sizes {0,1,2,3} / {0,1,2,3,5} on all four axes (plus 8 and 255 one axis at a time), dictionaries with buckets {1,2} / {1,2,4,255}, rotating / all eight solvers, and 12 / 14 corpora (empty, single-character sentence, no word boundary, only word boundaries, untagged, tagged with 1-3 categories and absent tags, partially annotated, all-unknown, tag-dictionary-only tokens): Trainer::new / add_example / train must return Ok or Err and never unwind; every returned model must write, re-read to identical bytes, be accepted by Predictor::new with and without tag prediction, predict and fill_tags every text up to 3 characters without panicking, and contain only 16-bit weights.",
+   note="A crash inside liblinear (C++) kills the engine process; the driver reports that as a violation with the crash log. Token::tag_candidates is not part of this property's observation (documented panic without stored scores)."),
 }
 
 PENDING_REASON = "check not built yet in this round (planned in DESIGN.md section 3); no claim is made"
